@@ -248,37 +248,98 @@ theorem indentLines_cons (cfg : Config) (line : Str) (rest : List Str) (i level0
          out :: indentLines cfg rest (i + 1) level3) := by
   rw [indentLines]
 
-/-- every character of a non-empty line is in the indented text -/
-theorem mem_indent (cfg : Config) : ∀ (ls : List Str) (i lvl : Nat), ∀ l ∈ ls, l ≠ [] → ∀ x ∈ l,
-    x ∈ joinWith [10] (indentLines cfg ls i lvl) := by
+/-- no `ESC` is directly followed by `[` -/
+def NoEB : Str → Prop
+  | [] => True
+  | [_] => True
+  | a :: b :: r => ¬ (a = 27 ∧ b = 91) ∧ NoEB (b :: r)
+
+theorem NoEB.col : ∀ (t : Str), NoEB t → Col t t
+  | [], _ => Col.nil
+  | [c], _ => Col.chr c Col.nil (by simp)
+  | a :: b :: r, h => by
+    refine Col.chr a (NoEB.col (b :: r) h.2) ?_
+    intro ha
+    simp only [List.head?_cons, ne_eq, Option.some.injEq]
+    intro hb
+    exact h.1 ⟨ha, hb⟩
+
+theorem NoEB.tail : ∀ (a : Str) {l : Str}, NoEB (a ++ l) → NoEB l
+  | [], l, h => h
+  | [c], l, h => by
+    cases l with
+    | nil => trivial
+    | cons x xs => exact h.2
+  | c :: d :: r, l, h => NoEB.tail (d :: r) (l := l) h.2
+
+theorem NoEB.init : ∀ (l : Str) {b : Str}, NoEB (l ++ b) → NoEB l
+  | [], _, _ => trivial
+  | [c], _, _ => trivial
+  | c :: d :: r, b, h => ⟨h.1, NoEB.init (d :: r) (b := b) h.2⟩
+
+theorem NoEB.infix (a l b : Str) (h : NoEB (a ++ l ++ b)) : NoEB l := by
+  rw [List.append_assoc] at h
+  exact NoEB.init l (NoEB.tail a h)
+
+theorem join_cons_infix (sep x : Str) (xs : List Str) : ∃ b, joinWith sep (x :: xs) = x ++ b := by
+  cases xs with
+  | nil => exact ⟨[], by simp [joinWith]⟩
+  | cons y ys => exact ⟨sep ++ joinWith sep (y :: ys), by simp [joinWith]⟩
+
+theorem join_tail_infix (sep x : Str) (xs : List Str) (hne : xs ≠ []) : ∃ a, joinWith sep (x :: xs) = a ++ joinWith sep xs := by
+  cases xs with
+  | nil => exact absurd rfl hne
+  | cons y ys => exact ⟨x ++ sep, by simp [joinWith]⟩
+
+theorem indentLines_step (cfg : Config) (line : Str) (rest : List Str) (i lvl : Nat) :
+    (line = [] → ∃ lv, indentLines cfg (line :: rest) i lvl = indentLines cfg rest (i + 1) lv) ∧
+    (line ≠ [] → ∃ k lv, indentLines cfg (line :: rest) i lvl = (List.replicate k 32 ++ line) :: indentLines cfg rest (i + 1) lv) := by
+  rw [indentLines_cons]
+  constructor
+  · intro he
+    subst he
+    simp only [List.isEmpty_nil, if_true]
+    exact ⟨_, rfl⟩
+  · intro hne
+    have he : line.isEmpty = false := by simpa using hne
+    simp only [he, Bool.false_eq_true, if_false]
+    exact ⟨_, _, rfl⟩
+
+/-- every non-empty line is a contiguous part of the indented text -/
+theorem infix_indent (cfg : Config) : ∀ (ls : List Str) (i lvl : Nat), ∀ l ∈ ls, l ≠ [] →
+    ∃ a b, joinWith [10] (indentLines cfg ls i lvl) = a ++ l ++ b := by
   intro ls
   induction ls with
   | nil => intro i lvl l hl; simp at hl
   | cons line rest ih =>
-    intro i lvl l hl hne x hx
-    rw [indentLines_cons]
-    simp only []
-    by_cases he : line.isEmpty = true
-    · rw [if_pos he]
+    intro i lvl l hl hne
+    obtain ⟨h1, h2⟩ := indentLines_step cfg line rest i lvl
+    by_cases he : line = []
+    · obtain ⟨lv, e⟩ := h1 he
+      rw [e]
       simp only [List.mem_cons] at hl
       rcases hl with rfl | hl
-      · exact absurd (List.isEmpty_iff.mp he) hne
-      · exact ih _ _ l hl hne x hx
-    · rw [if_neg he]
+      · exact absurd he hne
+      · exact ih _ _ l hl hne
+    · obtain ⟨k, lv, e⟩ := h2 he
+      rw [e]
       simp only [List.mem_cons] at hl
       rcases hl with rfl | hl
-      · apply mem_join_head
-        simp [hx]
-      · apply mem_join_tail
-        exact ih _ _ l hl hne x hx
+      · obtain ⟨b, hb⟩ := join_cons_infix [10] (List.replicate k 32 ++ l) (indentLines cfg rest (i + 1) lv)
+        exact ⟨List.replicate k 32, b, by rw [hb]⟩
+      · obtain ⟨a, b, hab⟩ := ih (i + 1) lv l hl hne
+        have hrest : indentLines cfg rest (i + 1) lv ≠ [] := by
+          intro e'; rw [e'] at hab; simp [joinWith] at hab; exact hne hab.2.1
+        obtain ⟨a', ha'⟩ := join_tail_infix [10] (List.replicate k 32 ++ line) _ hrest
+        exact ⟨a' ++ a, b, by rw [ha', hab]; simp⟩
 
 theorem indent_rel (c1 c2 : Config) (hns : c1.noStart = c2.noStart) {lsC lsT : List Str} (h : LinesRel lsC lsT)
-    (h27 : ∀ l ∈ lsT, l ≠ [] → 27 ∉ l) : ∀ (i lvl : Nat), LinesRel (indentLines c1 lsC i lvl) (indentLines c2 lsT i lvl) := by
+    (hself : ∀ l ∈ lsT, l ≠ [] → Col l l) : ∀ (i lvl : Nat), LinesRel (indentLines c1 lsC i lvl) (indentLines c2 lsT i lvl) := by
   induction h with
   | nil => intro i lvl; simp only [indentLines]; exact LinesRel.nil
   | @cons a b as bs hab _ ih =>
     intro i lvl
-    have ih := ih (fun l hl => h27 l (List.mem_cons_of_mem _ hl))
+    have ih := ih (fun l hl => hself l (List.mem_cons_of_mem _ hl))
     rw [indentLines_cons, indentLines_cons, hns]
     simp only []
     by_cases he : a = []
@@ -291,9 +352,9 @@ theorem indent_rel (c1 c2 : Config) (hns : c1.noStart = c2.noStart) {lsC lsT : L
       have heb : b.isEmpty = false := by simpa using hb
       rw [hea, heb]
       simp only [Bool.false_eq_true, if_false]
-      have hb27 := h27 b List.mem_cons_self hb
+      have hbb := hself b List.mem_cons_self hb
       have e1 : stripColor (a.length + 1) a = b := hab.strip _ (by omega)
-      have e2 : stripColor (b.length + 1) b = b := (Col.of_no27 b hb27).strip _ (by omega)
+      have e2 : stripColor (b.length + 1) b = b := hbb.strip _ (by omega)
       rw [e1, e2]
       refine LinesRel.cons ?_ (ih _ _)
       exact Col.prepend_no27 _ (by intro hm; have := List.eq_of_mem_replicate hm; omega) hab
@@ -348,12 +409,12 @@ theorem rewr_verboseEsc : Rewr verboseEsc := by
   · simp only [verboseEsc, hnot 10 (by omega), Bool.false_eq_true, if_false]
   · simp only [verboseEsc, hnot 13 (by omega), Bool.false_eq_true, if_false]
 
-/-- **C15 in verbose mode, whole pattern** for every expression and every combination of the other settings: if the verbose text
-without highlighting contains no `ESC` character (U+001B is not escaped by the printer; a test case containing it is outside this
-theorem), removing the SGR sequences from the highlighted verbose text with the stripping regex of the code gives exactly the verbose
+/-- **C15 in verbose mode, whole pattern** for every expression and every combination of the other settings: if in the verbose text
+without highlighting no `ESC` character is directly followed by `[` (U+001B is not escaped by the printer and `[` is raw only where it
+opens a character class: a test case with an `ESC` right in front of what becomes a class is outside this theorem), removing the SGR sequences from the highlighted verbose text with the stripping regex of the code gives exactly the verbose
 text without highlighting — line breaks, indentation and all -/
 theorem strip_colored_verbose (cfg : Config) (hv : cfg.verb = true) (e : Expr)
-    (h27 : 27 ∉ fmtRegExp (withColor cfg false) e) (fuel : Nat)
+    (h27 : NoEB (fmtRegExp (withColor cfg false) e)) (fuel : Nat)
     (hf : (fmtRegExp (withColor cfg true) e).length ≤ fuel) :
     stripColor fuel (fmtRegExp (withColor cfg true) e) = fmtRegExp (withColor cfg false) e := by
   have nl : CP [10] [10] := CP.plain [10] (by decide) (fun rest _ => by simp)
@@ -394,9 +455,11 @@ theorem strip_colored_verbose (cfg : Config) (hv : cfg.verb = true) (e : Expr)
   generalize hT : replaceChar 32 Gen.strBlank _ = r4T at hr4 hf ⊢
   generalize hF : replaceChar 32 Gen.strBlank _ = r4F at hr4 h27 ⊢
   have hlines := hr4.lines r4T.length (Nat.le_refl _)
-  have hno : ∀ l ∈ splitLines r4F, l ≠ [] → 27 ∉ l := by
-    intro l hl hne hm
-    exact h27 (mem_indent _ _ 0 0 l hl hne 27 hm)
+  have hno : ∀ l ∈ splitLines r4F, l ≠ [] → Col l l := by
+    intro l hl hne
+    obtain ⟨a, b, hab⟩ := infix_indent (withColor cfg false) _ 0 0 l hl hne
+    rw [hab] at h27
+    exact NoEB.col l (NoEB.infix a l b h27)
   exact (join_rel (indent_rel (withColor cfg true) (withColor cfg false) rfl hlines hno 0 0)).strip fuel hf
 
 end Grexv
